@@ -11,6 +11,9 @@ use vm_memory::{GuestAddress, GuestAddressSpace, GuestMemory, GuestMemoryAtomic,
 
 type Mem = GuestMemoryMmap<()>;
 pub const REMOVE: u64 = 1 << 63;
+/// (SWAP | start): replace the region starting there by a fresh region of the same range in one
+/// locked update - the layout stays the same, the memory behind it changes
+pub const SWAP: u64 = 1 << 62;
 type Atomic = GuestMemoryAtomic<Mem>;
 
 fn region(start: u64, tag: u8) -> Arc<GuestRegionMmap<()>> {
@@ -39,7 +42,7 @@ fn read_map(m: &Mem, unmapped: &HashSet<usize>) -> Result<Vec<(u64, u8)>, String
 
 #[derive(Clone, Debug)]
 enum Log {
-    Published { by: usize, regions: Vec<u64> },
+    Published { by: usize, regions: Vec<(u64, u8)> },
     Snapshot { by: usize, regions: Vec<(u64, u8)> },
     Reread { by: usize, first: Vec<(u64, u8)>, again: Result<Vec<(u64, u8)>, String> },
 }
@@ -102,18 +105,23 @@ fn execute(cfg: &Config, ex: &mut Explorer) -> ExecResult {
     let mut bodies: Vec<ThreadBody> = Vec::new();
     let mut tid = 0usize;
     let mut removed: BTreeSet<u64> = BTreeSet::new();
+    // start -> tag of the instance that must be in the final map
+    let mut final_tag: HashMap<u64, u8> = [(0x10_0000u64, 1u8)].into_iter().collect();
     for ups in &cfg.updaters {
-        let mut regs: Vec<Result<Arc<GuestRegionMmap<()>>, u64>> = Vec::new();
+        let mut regs: Vec<(Option<u64>, Option<Arc<GuestRegionMmap<()>>>)> = Vec::new(); // (remove this start, insert this region)
         for s in ups {
             if s & REMOVE != 0 {
                 removed.insert(s & !REMOVE);
-                regs.push(Err(s & !REMOVE));
+                final_tag.remove(&(s & !REMOVE));
+                regs.push((Some(s & !REMOVE), None));
                 continue;
             }
+            let start = s & !SWAP;
             let tag = 10 + all_regions.len() as u8;
-            let r = region(*s, tag);
-            all_regions.push((*s, r.as_ptr() as usize, tag));
-            regs.push(Ok(r));
+            let r = region(start, tag);
+            all_regions.push((start, r.as_ptr() as usize, tag));
+            final_tag.insert(start, tag);
+            regs.push((if s & SWAP != 0 { Some(start) } else { None }, Some(r)));
         }
         let a = atomic.clone();
         let lg = log.clone();
@@ -123,11 +131,18 @@ fn execute(cfg: &Config, ex: &mut Explorer) -> ExecResult {
                 let guard = a.lock().unwrap();
                 let cur = a.memory();
                 step("derive-new-map");
-                let new = match r {
-                    Ok(r) => cur.insert_region(r).unwrap(),
-                    Err(start) => cur.remove_region(GuestAddress(start), 4096).unwrap().0,
-                };
-                let regions = starts(&new);
+                let mut new: Option<Mem> = None;
+                if let Some(start) = r.0 {
+                    new = Some(cur.remove_region(GuestAddress(start), 4096).unwrap().0);
+                }
+                if let Some(reg) = r.1 {
+                    new = Some(match &new {
+                        Some(m) => m.insert_region(reg).unwrap(),
+                        None => cur.insert_region(reg).unwrap(),
+                    });
+                }
+                let new = new.unwrap();
+                let regions = read_map(&new, &HashSet::new()).unwrap_or_default();
                 drop(cur);
                 guard.replace(new);
                 lg.lock().unwrap().push(Log::Published { by: me, regions });
@@ -174,8 +189,9 @@ fn execute(cfg: &Config, ex: &mut Explorer) -> ExecResult {
     }
     // ---- oracle ---------------------------------------------------------------------------
     let log = log.lock().unwrap().clone();
-    let tags: HashMap<u64, u8> = all_regions.iter().map(|(s, _, t)| (*s, *t)).collect();
-    let mut published: Vec<Vec<u64>> = vec![vec![0x10_0000]];
+    let tags: HashSet<(u64, u8)> = all_regions.iter().map(|(s, _, t)| (*s, *t)).collect();
+    // a map is the list of its (start, tag) pairs: the tag names the region instance
+    let mut published: Vec<Vec<(u64, u8)>> = vec![vec![(0x10_0000, 1)]];
     let mut completed: BTreeSet<u64> = [0x10_0000u64].into_iter().collect();
     let mut fail = |k: &str, d: String| {
         if out.violation.is_none() {
@@ -187,16 +203,16 @@ fn execute(cfg: &Config, ex: &mut Explorer) -> ExecResult {
         match e {
             Log::Published { regions, .. } => {
                 published.push(regions.clone());
-                completed.extend(regions.iter().cloned());
+                completed.extend(regions.iter().map(|r| r.0));
             }
             Log::Snapshot { by, regions } => {
-                let list: Vec<u64> = regions.iter().map(|r| r.0).collect();
+                let list: Vec<(u64, u8)> = regions.clone();
                 outcome.push(format!("s{}={:x?}", by, list));
                 // the updaters may have published a map that is not logged yet (the log entry is
                 // written after replace returns): accept any map that is published by the end
                 for (s, t) in regions {
-                    if tags.get(s) != Some(t) {
-                        fail("snapshot-region-unreadable", format!("region {:#x} reads tag {} instead of {:?}", s, t, tags.get(s)));
+                    if !tags.contains(&(*s, *t)) {
+                        fail("snapshot-region-unreadable", format!("region {:#x} reads tag {}, which no region placed there carries", s, t));
                     }
                 }
                 // once a replacement has completed, later snapshots show it (or a later one):
@@ -223,7 +239,7 @@ fn execute(cfg: &Config, ex: &mut Explorer) -> ExecResult {
     // every snapshot equals exactly one published map
     for e in &log {
         if let Log::Snapshot { regions, .. } = e {
-            let list: Vec<u64> = regions.iter().map(|r| r.0).collect();
+            let list: Vec<(u64, u8)> = regions.clone();
             if !published.contains(&list) {
                 fail("snapshot-is-not-a-published-map", format!("snapshot {:x?}; maps ever published: {:x?}", list, published));
             }
@@ -231,12 +247,13 @@ fn execute(cfg: &Config, ex: &mut Explorer) -> ExecResult {
     }
     // no replacement is lost
     let final_map = atomic.memory();
-    let final_list = starts(&final_map);
+    let final_list = read_map(&final_map, &HashSet::new()).unwrap_or_default();
     outcome.push(format!("final={:x?}", final_list));
-    let want: BTreeSet<u64> = all_regions.iter().map(|r| r.0).filter(|s| !removed.contains(s)).collect();
-    if final_list.iter().cloned().collect::<BTreeSet<u64>>() != want {
-        fail("lost-replacement", format!("final map {:x?} but the updaters inserted {:x?}", final_list, want));
+    let want: BTreeSet<(u64, u8)> = final_tag.iter().map(|(s, t)| (*s, *t)).collect();
+    if final_list.iter().cloned().collect::<BTreeSet<(u64, u8)>>() != want {
+        fail("lost-replacement", format!("final map (start, region tag) {:x?} but the updates leave {:x?}", final_list, want));
     }
+    let _ = &removed;
     drop(final_map);
     // everything is unmapped exactly once when the last owner is gone
     drop(atomic);
@@ -312,6 +329,8 @@ enum SOp {
     IntoInner(usize),
     Insert(u64),
     Remove(u64),
+    /// replace the region at this start by a fresh one in a single locked update
+    Swap(u64),
     DropSnapshot(usize),
     DropOwned(usize),
     DropHandle,
@@ -417,6 +436,30 @@ fn sequential(ctx: &Ctx, depth: usize) {
                     next_id += 1;
                     current.sort();
                 }
+                SOp::Swap(s) => {
+                    if !current.iter().any(|x| x.0 == *s) {
+                        return false;
+                    }
+                    serial += 1;
+                    let r = region(*s, serial);
+                    ptr_of.insert(*s, (r.as_ptr() as usize, serial));
+                    acc.borrow_mut().extend(take_global_log());
+                    ever.push((*s, r.as_ptr() as usize, acc.borrow().len(), next_id));
+                    let h = handles.last().unwrap();
+                    let g = h.lock().unwrap();
+                    let cur = h.memory();
+                    let new = if current.len() == 1 {
+                        GuestMemoryMmap::from_arc_regions(vec![r]).unwrap()
+                    } else {
+                        cur.remove_region(GuestAddress(*s), 4096).unwrap().0.insert_region(r).unwrap()
+                    };
+                    drop(cur);
+                    g.replace(new);
+                    current.retain(|x| x.0 != *s);
+                    current.push((*s, next_id));
+                    next_id += 1;
+                    current.sort();
+                }
                 SOp::Remove(s) => {
                     if !current.iter().any(|x| x.0 == *s) || current.len() == 1 {
                         return false;
@@ -451,10 +494,20 @@ fn sequential(ctx: &Ctx, depth: usize) {
                 bad = Some(("snapshot-changed-while-held".into(), format!("{:x?} became {:x?}", sts(l), s)));
             }
         }
-        // all handles show the current map
+        // all handles show the current map: the same ranges backed by the same region instances
+        let ptr_by_id: HashMap<u32, usize> = ever.iter().map(|e| (e.3, e.1)).collect();
+        let inst_ptrs = |l: &[Inst]| -> Vec<(u64, usize)> { l.iter().map(|x| (x.0, ptr_by_id[&x.1])).collect() };
+        let map_ptrs = |m: &Mem| -> Vec<(u64, usize)> { m.iter().map(|r| (r.start_addr().0, r.as_ptr() as usize)).collect() };
         for h in &handles {
             if starts(&h.memory()) != sts(&current) {
                 bad = Some(("handles-disagree".into(), format!("a handle shows {:x?}, current is {:x?}", starts(&h.memory()), sts(&current))));
+            } else if map_ptrs(&h.memory()) != inst_ptrs(&current) {
+                bad = Some(("handle-shows-replaced-memory".into(), format!("a handle shows the ranges of the current map {:x?} but backed by other regions than the ones last published (host addresses {:x?}, expected {:x?})", sts(&current), map_ptrs(&h.memory()), inst_ptrs(&current))));
+            }
+        }
+        for (m, l) in snaps.iter().map(|(s, l)| (map_ptrs(s), l)).chain(owned.iter().map(|(s, l)| (map_ptrs(s), l))) {
+            if m != inst_ptrs(l) && bad.is_none() {
+                bad = Some(("snapshot-changed-while-held".into(), format!("a held snapshot of {:x?} is now backed by other regions", sts(l))));
             }
         }
         // a region is unmapped iff no snapshot / owned map / current map contains it
@@ -522,6 +575,8 @@ fn sequential(ctx: &Ctx, depth: usize) {
             ops.push(SOp::Remove(u));
         }
         ops.push(SOp::Remove(0x10_0000));
+        ops.push(SOp::Swap(0x10_0000));
+        ops.push(SOp::Swap(0x20_0000));
         for op in ops {
             let mut h = hist.clone();
             h.push(op);
@@ -550,7 +605,7 @@ fn trivial_address_spaces(ctx: &Ctx) {
 
 pub fn run(tier: Tier, replay: Option<String>) -> i32 {
     let ctx = crate::new_ctx("C11", tier, "model_checking", &replay);
-    ctx.set_rule("E3: stateless DFS over the interleavings, within the stated preemption bound, of real updater threads (lock; memory(); derive a map with one more region; replace; unlock) and reader threads (memory(); read regions and tags; clone the snapshot; into_inner; drop; re-read; drop) on one GuestMemoryAtomic<GuestMemoryMmap> shared through cloned handles; scheduling points: every ArcSwap load/store and Mutex lock/unlock of the crate (hook H3, blocking on the update mutex modelled) plus the harness steps between a reader's operations. Oracle per schedule: every snapshot is exactly one published map, readable (tags through the mappings), unchanged when re-read; snapshots taken after a replacement completed show it; the final map contains every updater's region; no deadlock; after all handles are dropped every region was munmap'ed exactly once (interposed log). E1: BFS over all sequential histories up to the stated depth of {clone handle, drop handle, snapshot, clone snapshot, into_inner, drop snapshot/owned, lock+replace with insert/remove}, state = (current map, held snapshots, owned maps, handles), with the owner-graph invariant mapped <=> reachable checked against the interposed munmap log in every state.");
+    ctx.set_rule("E3: stateless DFS over the interleavings, within the stated preemption bound, of real updater threads (lock; memory(); derive a map with one more / one less region or with one region swapped for a fresh one of the same range; replace; unlock) and reader threads (memory(); read regions and tags; clone the snapshot; into_inner; drop; re-read; drop) on one GuestMemoryAtomic<GuestMemoryMmap> shared through cloned handles; scheduling points: every ArcSwap load/store and Mutex lock/unlock of the crate (hook H3, blocking on the update mutex modelled) plus the harness steps between a reader's operations. Oracle per schedule: every snapshot is exactly one published map (maps compared as lists of (start, region instance)), readable (tags through the mappings), unchanged when re-read; snapshots taken after a replacement completed show it; the final map contains every updater's region; no deadlock; after all handles are dropped every region was munmap'ed exactly once (interposed log). E1: BFS over all sequential histories up to the stated depth of {clone handle, drop handle, snapshot, clone snapshot, into_inner, drop snapshot/owned, lock+replace with insert/remove/swap (same range, fresh region)}, state = (current map, held snapshots, owned maps, handles), with the owner-graph invariant mapped <=> reachable checked against the interposed munmap log in every state.");
     ctx.assume("ArcSwap::load/store are treated as atomic steps (arc_swap internals execute for real but are not interleaved internally); SC");
     if let Some(r) = ctx.replay_of.clone() {
         let c = &r["case"];
@@ -574,6 +629,9 @@ pub fn run(tier: Tier, replay: Option<String>) -> i32 {
         Config { name: "1-updater-2-rounds-2-readers", updaters: vec![vec![0x20_0000, 0x30_0000]], readers: 2, bound: Some(if thorough { 4 } else { 2 }) },
         // the first region is removed while readers hold snapshots that still contain it
         Config { name: "insert-then-remove-vs-reader", updaters: vec![vec![0x20_0000, REMOVE | 0x10_0000]], readers: 1, bound: if thorough { None } else { Some(3) } },
+        // same layout, new memory: the replacement must be published like any other
+        Config { name: "swap-region-vs-reader", updaters: vec![vec![SWAP | 0x10_0000]], readers: 1, bound: None },
+        Config { name: "insert-then-swap-vs-2-readers", updaters: vec![vec![0x20_0000, SWAP | 0x20_0000]], readers: 2, bound: Some(if thorough { 3 } else { 2 }) },
         Config { name: "inserter-and-remover-vs-reader", updaters: vec![vec![0x20_0000], vec![0x30_0000, REMOVE | 0x10_0000]], readers: 1, bound: Some(if thorough { 4 } else { 2 }) },
     ];
     for cfg in &configs {
